@@ -118,8 +118,8 @@ func main() {
 		if b, err := os.ReadFile(*seededJSON); err == nil {
 			var rs []map[string]any
 			if json.Unmarshal(b, &rs) == nil {
-				det, tot, skipped := 0, 0, 0
-				var missed []string
+				det, tot, skipped, silent := 0, 0, 0, 0
+				var missed, alarms []string
 				for _, r := range rs {
 					switch r["status"] {
 					case "DETECTED":
@@ -128,10 +128,16 @@ func main() {
 					case "MISSED":
 						tot++
 						missed = append(missed, fmt.Sprint(r["id"]))
+					case "SILENT-OK":
+						silent++
+					case "FALSE-ALARM":
+						alarms = append(alarms, fmt.Sprint(r["id"]))
 					default:
 						skipped++
 					}
 				}
+				out.Extra["neutral_variants_silent"] = silent
+				out.Extra["neutral_variants_false_alarms"] = alarms
 				out.Extra["seeded_total"] = tot
 				out.Extra["seeded_detected"] = det
 				out.Extra["seeded_skipped_or_not_compiling"] = skipped
